@@ -60,7 +60,7 @@ for pr in (True, False):
     MODES.append(("append_python_stdlib", {"pop_result": pr}))
     MODES.append(("append_python_qualified", {"pop_result": pr}))
 for cc in (False, True):
-    for ca in (None, [1, "a"]):
+    for ca in (None, [1, "a"], [[1, 2], {"k": "v"}], [b"w" * 300]):
         MODES.append(("function_call", {"compile_code": cc, "constant_args": ca}))
 for idx in ("last", "first", "middle"):
     MODES.append(("magic_int", {"index": idx}))
@@ -68,7 +68,8 @@ LOADERS = ("c", "py")
 
 
 ARG2 = [7]  # second payload argument; varied per injection by run_shard
-ARG_SEQUENCE = (7, 8.0, "7", 7.0, 8, b"7", 10.0, 10, 11, 11.0, "8.0", 2**40, float(2**40), 12.0, 12)
+ARG_SEQUENCE = (7, 8.0, "7", 7.0, 8, b"7", 10.0, 10, 11, 11.0, "8.0", 2**40, float(2**40), 12.0, 12,
+                b"z" * 300, [1, "a"], {"k": 2}, b"y" * 255, [], [[1], {"n": [2]}], "\u00e9" * 200)
 _ARG_CYCLE = [0]
 
 
